@@ -2,6 +2,7 @@ import Fips204.Props.C01
 import Fips204.Props.C15
 import Fips204.Lemmas.HintDuality
 import Fips204.Lemmas.SignerHint
+import Fips204.Lemmas.SignVerify
 /-!
 # C01 (continued) — the two arithmetic facts signature correctness rests on
 
@@ -20,8 +21,15 @@ import Fips204.Lemmas.SignerHint
   `challenge_has_weight_tau`: every polynomial `sample_in_ball` returns is such a challenge.
 
 Together with C18 (the pipelines compute ring products), C08 (the encodings round-trip), C09/C11 (all key provenances
-are the same structs) and C02 (verification is Algorithm 8) these are the ingredients of the completeness proof; the
-composition through Algorithm 7's rejection loop is not assembled in Lean and stays decided by execution.
+are the same structs) and C02 (verification is Algorithm 8) these are the ingredients of the completeness proof.
+
+* `ntt_and_inverse_are_mutually_inverse`, `verifier_ring_identity`: with `t = A s1 + s2`, `(t1, t0) = Power2Round(t)`, `z = y + c s1`,
+  the verifier's `NTT^-1(A_hat ∘ NTT(z) - NTT(c) ∘ NTT(t1 2^d))` is `A y - c s2 + c t0` modulo q, row by row.
+* `accepted_attempt_verifies`: an accepted attempt of Algorithm 7 (lines 11-29) passes lines 5-13 of Algorithm 8: same `c`, same
+  `w1` (all of the above, lifted to vectors), same commitment hash, norm test passed.
+* `signature_verifies_spec_partial`: Algorithm 8 returns `true` on what Algorithm 7 emits, through the rejection loop and the
+  byte encoder, under one named hypothesis (`hcodec`: the emitted bytes decode to what was encoded).  Algorithms 7 and 8 here are
+  the exact specifications `signSpec` / `verifySpec` that C03 / C02 prove equal to the crate's `sign_internal` / `verify_internal`.
 -/
 namespace Fips204.Props.C01
 open Fips204 Fips204.Gen
@@ -57,5 +65,62 @@ theorem challenge_times_small_vector_is_small (c s : Impl.Poly) (tau eta : Int) 
 theorem challenge_has_weight_tau (m : Mode) (O : Impl.Oracles) (hO : Impl.OracleOk O) (ctest : Bool) (tau : Int) (rho : List Nat)
     (ht : 0 ≤ tau ∧ tau ≤ 64) : Impl.NoPanic (Impl.sampleInBall m O ctest tau rho) (fun c => Impl.Tri c ∧ Impl.nz c = tau.toNat) :=
   Impl.sampleInBall_np' m O hO ctest tau rho ht
+
+/-- the two transforms are mutually inverse (exact specifications, modulo q): `NTT(NTT^-1(v)) = v` and `NTT^-1(NTT(w)) = w` -/
+theorem ntt_and_inverse_are_mutually_inverse (v : List Int) (hv : v.length = 256) :
+    Impl.CongL (Impl.nttS 8 1 (Impl.invC v)) v ∧ Impl.CongL (Impl.invC (Impl.nttS 8 1 v)) v :=
+  ⟨Impl.nttS_invC v hv, Impl.invC_nttS v hv⟩
+
+/-- **the verifier's ring identity**, one row, exact specifications: with `t = A s1 + s2`, `(t1, t0) = Power2Round(t)`, `z = y + c s1`:
+    `NTT^-1(A_hat ∘ NTT(z) - NTT(c) ∘ NTT(t1 2^d)) = A y - c s2 + c t0` modulo q -/
+theorem verifier_ring_identity (row s1 y : List Impl.Poly) (c s2r : Impl.Poly) (hrow : ∀ a ∈ row, a.length = 256) (hs1 : ∀ u ∈ s1, u.length = 256)
+    (hy : ∀ u ∈ y, u.length = 256) (hl1 : y.length = s1.length) (lc : c.length = 256) (ls2 : s2r.length = 256) :
+    Impl.CongL (Impl.wRowS row (List.zipWith (fun yp cp => List.zipWith (fun a b => modpm Q (a + b)) yp cp) y (s1.map (Impl.cmul c))) c
+        ((Impl.tRowS row s1 s2r).map (fun v => (Spec.power2round v).1)))
+      (Impl.zw3 (fun p q r => p - q + r) (Impl.invC (Impl.rowS row y Impl.zeroPoly)) (Impl.cmul c s2r)
+        (Impl.cmul c ((Impl.tRowS row s1 s2r).map (fun v => (Spec.power2round v).2)))) :=
+  Impl.verifier_row row s1 y c s2r hrow hs1 hy hl1 lc ls2
+
+/-- the three parameter sets meet the numeric side conditions of the theorems below -/
+theorem c01_params (p : ParamSet) (hp : p ∈ [ml_dsa_44, ml_dsa_65, ml_dsa_87]) :
+    (p.gamma2 = 95232 ∨ p.gamma2 = 261888) ∧ p.beta = p.eta * p.tau ∧ p.beta ≤ p.gamma2 ∧ (0 ≤ p.tau ∧ p.tau ≤ 64) ∧ (0 ≤ p.eta ∧ p.eta ≤ 4) := by
+  simp only [List.mem_cons, List.mem_nil_iff, or_false] at hp
+  rcases hp with rfl | rfl | rfl <;> decide
+
+/-- **an accepted signing attempt passes the verifier's test** (lines 5-13 of Algorithm 8 on the output of lines 11-29 of Algorithm 7) -/
+theorem accepted_attempt_verifies (m : Mode) (O : Impl.Oracles) (hO : Impl.OracleOk O) (p : ParamSet)
+    (hp : p ∈ [ml_dsa_44, ml_dsa_65, ml_dsa_87])
+    (aHat : List (List Impl.Poly)) (s1 s2 : List Impl.Poly)
+    (hA : ∀ row ∈ aHat, ∀ a ∈ row, a.length = 256) (hs1 : ∀ u ∈ s1, u.length = 256) (hs2 : ∀ u ∈ s2, u.length = 256)
+    (hs2b : ∀ u ∈ s2, ∀ x ∈ u, -p.eta ≤ x ∧ x ≤ p.eta) (hk : aHat.length = s2.length)
+    (mu rhoPP : List Nat) (kappa : Int)
+    (hyS : ∀ y, Impl.expandMask m O p rhoPP kappa = .ok y → y.length = s1.length ∧ ∀ u ∈ y, u.length = 256)
+    (cT : List Nat) (z h : List Impl.Poly)
+    (hatt : Impl.attemptSpec m O p s1 s2 ((List.zipWith (fun row s2r => Impl.tRowS row s1 s2r) aHat s2).map (fun q => q.map (fun x => (Spec.power2round x).2)))
+      aHat mu rhoPP kappa = .ok (some (cT, z, h))) :
+    Impl.verifyCoreS m O p aHat ((List.zipWith (fun row s2r => Impl.tRowS row s1 s2r) aHat s2).map (fun q => q.map (fun x => (Spec.power2round x).1)))
+      mu cT z h = .ok true := by
+  obtain ⟨hg, hbeta, hbg, htau, heta⟩ := c01_params p hp
+  exact Impl.attempt_verifies m O hO p hg hbeta hbg htau heta aHat s1 s2 hA hs1 hs2 hs2b hk mu rhoPP kappa hyS cT z h hatt
+
+/-- **Algorithm 8 accepts what Algorithm 7 emits** (exact specifications; `_partial`: the hypothesis `hcodec`, that the emitted bytes
+    decode back to the `(c~, z, h)` that were encoded, is not yet discharged by a theorem - the correspondence checks it on every run) -/
+theorem signature_verifies_spec_partial (m : Mode) (O : Impl.Oracles) (hO : Impl.OracleOk O) (p : ParamSet)
+    (hp : p ∈ [ml_dsa_44, ml_dsa_65, ml_dsa_87])
+    (fuel : Nat) (rho key tr : List Nat) (s1 s2 : List Impl.Poly) (aHat : List (List Impl.Poly)) (hexp : Impl.expandA m O false p rho = .ok aHat)
+    (hA : ∀ row ∈ aHat, ∀ a ∈ row, a.length = 256) (hk : aHat.length = s2.length)
+    (hs1 : s1.length = p.l ∧ ∀ u ∈ s1, u.length = 256) (hs2 : ∀ u ∈ s2, u.length = 256)
+    (hs2b : ∀ u ∈ s2, ∀ x ∈ u, -p.eta ≤ x ∧ x ≤ p.eta)
+    (msg ctx oid phm rnd : List Nat) (nist : Bool) (out : Impl.SignOut)
+    (hsign : Impl.signSpec m O p fuel rho key tr s1 s2
+      ((List.zipWith (fun row s2r => Impl.tRowS row s1 s2r) aHat s2).map (fun q => q.map (fun x => (Spec.power2round x).2)))
+      msg ctx oid phm rnd nist = .ok out)
+    (hcodec : ∀ cT z h, Impl.sigEncode m false p cT z h = .ok out.sig → Impl.sigDecode m p out.sig = .ok (some (cT, z, h))) :
+    Impl.verifySpec m O false p rho tr
+      ((List.zipWith (fun row s2r => Impl.tRowS row s1 s2r) aHat s2).map (fun q => q.map (fun x => (Spec.power2round x).1)))
+      msg out.sig ctx oid phm nist = .ok true := by
+  obtain ⟨hg, hbeta, hbg, htau, heta⟩ := c01_params p hp
+  exact Impl.sign_verify_spec_partial m O hO p hg hbeta hbg htau heta fuel rho key tr s1 s2 aHat hexp hA hk hs1 hs2 hs2b
+    msg ctx oid phm rnd nist out hsign hcodec
 
 end Fips204.Props.C01
